@@ -29,6 +29,9 @@ THEOREMS = [
     "RefineCut.cutTreeEnter_refines", "RefineCut.cutTreeLeave_refines", "RefineCut.cutTreeEnter_refines_model", "RefineCut.cutTreeLeave_refines_model",
     "C06.generated_toSubtree_eq_model", "C06.generated_toSubtree_kept", "C06.generated_cutTreeEnter", "C06.generated_cutTreeEnter_eq_model",
     "C06.generated_cutTreeLeave", "C06.generated_cutTreeLeave_eq_model",
+    # transforms/tree.py: CutByFurcationOrder._enter as translated is the model's callback; the pipeline cut_tree(x, enter=self._enter) equals Sub.cutByOrder
+    "RefineCut.isFurcation_generated", "RefineCut.orderEnter_refines", "RefineCut.cutByOrder_refines",
+    "C06.generated_orderEnter_eq_model", "C06.generated_cutByOrder_eq_model",
 ]
 TRUSTED = ["hand-written models Model/Subtree.lean of to_sub_topology / propagate_removal / get_subtree_impl / to_subtree / cut_tree / CutByType / "
            "CutByFurcationOrder / CutShortTipBranch (tied by the c06.ops correspondence: new parents and new→old mapping compared exactly)"]
